@@ -219,7 +219,7 @@ theorem compile_split (c : Term) (hc : clauseS fl c = true) :
       simp only [clauseS, hhb, Bool.and_eq_true] at hc
       simp only [clauseC, hhb, Bool.and_eq_true]
       refine ⟨⟨hc.1.1, headOK_of_horn hc.1.2⟩, ?_⟩
-      simp [bodyS, SLD.conjuncts, SLD.wrapVar, goalS, stepGoal, hornGoal]
+      simp [bodyS, SLD.conjuncts, SLD.wrapVar, goalS, stepGoal, hornGoal, SLD.disjuncts]
     obtain ⟨cl, hargs, hcomp, hl, hcode⟩ := horn_fact_layout c hcC hne
     have hcs : compiled c = [cl] := by simp [compiled, hcomp]
     rw [hcs]
